@@ -76,7 +76,10 @@ class FakeTransport(asyncio.Transport):
             c.dropped_writes += 1
             return
         if self._closing:
-            raise RuntimeError("write after close")
+            # like _SelectorSocketTransport: a write after close() is not an error of its own; the data goes nowhere
+            # and the StreamWriter's next drain() reports the lost connection
+            c.dropped_writes += 1
+            return
         if c.tx_room is None:
             c.on_client_write(data)
             return
